@@ -629,8 +629,7 @@ func emitSkeleton(b *strings.Builder, p *packages.Package) error {
 			var extra []*skFn
 			w := &skWalker{p: p, fn: fn, closures: map[string]*skFn{}, extra: &extra, pure: pureLocals(p.TypesInfo, fd.Body)}
 			w.stmts(fd.Body.List)
-			fns = append(fns, extra...)
-			// keep fsnotify.go only for functions with concurrency content
+			// keep fsnotify.go only for functions with concurrency content (and their closures with them)
 			if file == "fsnotify.go" {
 				keep := false
 				for _, o := range fn.ops {
@@ -642,6 +641,7 @@ func emitSkeleton(b *strings.Builder, p *packages.Package) error {
 					continue
 				}
 			}
+			fns = append(fns, extra...)
 			fns = append(fns, fn)
 			byShort[fd.Name.Name] = append(byShort[fd.Name.Name], fn)
 		}
